@@ -558,7 +558,7 @@ def _names_by_csum(n_each=40):
             break
     return by
 
-LFN_SYMS = ['S', 'S=', 'D', 'V', 'Ls1', 'Ls2', 'Lc1', 'Lc2', 'Lx1', 'Lsx1', 'Ls20', 'Ls0', 'Ls3', 'Lc3']
+LFN_SYMS = ['S', 'S=', 'D', 'V', 'Ls1', 'Ls2', 'Lc1', 'Lc2', 'Lx1', 'Lsx1', 'Ls20', 'Ls0', 'Ls3', 'Lc3', 'DL']
 
 def lfn_directory(seqs, rng):
     """slot specs for a directory holding the given symbol sequences, each closed by a plain short entry"""
@@ -612,6 +612,9 @@ def lfn_directory(seqs, rng):
                 slots.append(dict(t='label', name=names[i]))
             elif sym == 'D':
                 slots.append(dict(t='del', name='GONE    %03d' % (len(slots) % 1000), chain=[], units=0))
+            elif sym == 'DL':
+                # a deleted long-name fragment (0xE5 reads as "start of a run of five" if it is taken for a live one) with the right checksum
+                slots.append(dict(t='lfn', seq=0xE5, csum=cs, u=units(False)))
             else:
                 start = sym.startswith('Ls')
                 wrong = 'x' in sym
@@ -633,6 +636,10 @@ def lfn_histories(seed, quick):
     # well-formed multi-fragment runs
     for n in (2, 3, 5, 19):
         seqs.append(['Ls%d' % n] + ['Lc%d' % k for k in range(n - 1, 0, -1)] + ['S'])
+    # the same with the first fragment deleted (the rest still live), and with a deleted fragment in the middle
+    for n in (2, 3, 5, 6):
+        seqs.append(['DL'] + ['Lc%d' % k for k in range(n - 1, 0, -1)] + ['S'])
+        seqs.append(['Ls%d' % n] + ['Lc%d' % k for k in range(n - 1, 1, -1)] + ['DL', 'S'])
     H = []
     cur, count = [], 0
     packs = []
